@@ -309,7 +309,7 @@ def run_case(spec):
                     label = "imported-name-used-in-class-body-not-at-module-level"
                 elif action in ("froms_to_imports", "handle_long_imports") and shadowed_from_names(case.files[path]):
                     label = "from-imported-name-rebound-in-nested-scope"
-                feats = (f"hostile:{label}|{action}" if label else f"core|{action}|prefs={ptxt}")
+                feats = (f"hostile:{label}" if label else f"core|{action}|prefs={ptxt}")
                 out = behave.judge(case, request, res, "imports", feats, coarse=bool(label), post_check=post,
                                    detail={"file": path, "action": action, "prefs": prefs, "source": case.files[path][:3000],
                                            "pseed": spec["pseed"]})
